@@ -19,6 +19,8 @@ SerOK(e) == /\ e.std = Ser(e.tx, FALSE)
 
 ItemAPIs == {"input", "inputext", "output"}
 ExactAPIs == {"bytes", "json", "jsonnode", "jsonhex", "jsonnodehex"}
+\* field-wise JSON decoders given whole documents: judged for totality only (a value or an error)
+OpaqueAPIs == {"jsondoc-tx", "jsondoc-input", "jsondoc-output", "jsondoc-utxo", "jsondoc-nodeutxo"}
 Item(r, f) == IF r.ok THEN [ok |-> TRUE, used |-> r.next - 1, item |-> r[f], minimal |-> r.minimal] ELSE r
 
 P(e) == CASE e.api \in ExactAPIs -> ParseExact(e.in)
@@ -65,8 +67,8 @@ Next == /\ l <= Len(Trace)
         /\ Mark(l)
         /\ CASE Ev.ev = "ser" -> (~SerOK(Ev)) => Reject(l, [cls |-> "c01", ev |-> "ser"])
              [] Ev.ev = "parse" ->
-                  /\ (Ev.outcome # "panic" /\ ~CodecOK(Ev)) => Reject(l, [cls |-> "c01", ev |-> "parse", specok |-> P(Ev).ok])
-                  /\ (~TotalOK(Ev)) => Reject(l, [cls |-> "c09", ev |-> "parse", specok |-> P(Ev).ok])
+                  /\ (Ev.api \notin OpaqueAPIs /\ Ev.outcome # "panic" /\ ~CodecOK(Ev)) => Reject(l, [cls |-> "c01", ev |-> "parse", specok |-> P(Ev).ok])
+                  /\ (~TotalOK(Ev)) => Reject(l, [cls |-> "c09", ev |-> "parse", specok |-> IF Ev.api \in OpaqueAPIs THEN TRUE ELSE P(Ev).ok])
              [] OTHER -> Reject(l, [cls |-> "c01", ev |-> "unknown"])
 Spec == Init /\ [][Next]_l
 =================================================================================
